@@ -130,6 +130,18 @@ template <class Compare, class Combine> static void RunSort(const Case &c, const
     for (; sorted; ++sorted) out.insert(out.end(), static_cast<const uint8_t*>(sorted.Get()), static_cast<const uint8_t*>(sorted.Get()) + c.rs);
     mret = "-";
     lazy_used = "-";
+  } else if (c.mode == "steal") {
+    // Sort::StealCompleted: merge all the way (Merge(0)) and hand over the data file
+    Chain chain(cc);
+    chain >> Putter(&data, &counts, c.rs);
+    Sort<Compare, Combine> sorter(chain, sc, compare, combine);
+    chain.Wait(true);
+    util::scoped_fd fd(sorter.StealCompleted());
+    uint64_t size = util::SizeOrThrow(fd.get());
+    out.resize(size);
+    if (size) util::ErsatzPRead(fd.get(), &out[0], size, 0);
+    mret = "0";
+    lazy_used = "0";
   } else {
     Chain chain(cc);
     chain >> Putter(&data, &counts, c.rs);
